@@ -309,6 +309,10 @@ func ParseContractFile(path, pkg string) (*ContractFile, error) {
 					break
 				}
 				for _, part := range splitTop(c.text, ',') {
+					if m := regexp.MustCompile(`^ghost\((\w+)\)$`).FindStringSubmatch(strings.TrimSpace(part)); m != nil {
+						cur.Opts["modghost:"+m[1]] = "1"
+						continue
+					}
 					cl, err := mk(part, c.line)
 					if err != nil {
 						return nil, err
